@@ -12,9 +12,9 @@
 
 #define MAXK 10
 typedef struct {
-    char bytes[16];
+    char bytes[48];
     size_t len;
-    char name[24];
+    char name[120];
     const char *ptr; /* what is handed to the table: the key's own bytes, or (binary mode) the START OF ANOTHER KEY'S buffer, so
                         that two keys of different length share an address (the table keeps the caller's pointer) */
 } hkey_t;
@@ -22,6 +22,7 @@ typedef struct {
 static hkey_t K[MAXK];
 static int NK = 0;
 static int MODE; /* 0 cs, 1 nocase, 2 bin (case-sensitive table, *_bkey API) */
+static int SUB; /* 1: the second key set of the mode (binlong: binary keys longer than 32 bytes; nocasepunct: non-letters that differ in bit 5) */
 static int cls[MAXK]; /* equivalence class representative under the table's equality */
 
 static int
@@ -74,6 +75,11 @@ add_key(const char *bytes, size_t len)
     k->ptr = k->bytes;
     if (len == 0)
         strcpy(k->name, "<empty>");
+    else if (len > 10) {
+        o = snprintf(k->name, sizeof k->name, "L%zu-", len);
+        for (i = 0; i < len; i++)
+            o += snprintf(k->name + o, sizeof k->name - o, "%02x", (unsigned char)bytes[i]);
+    }
     else
         for (i = 0; i < len; i++)
             o += snprintf(k->name + o, sizeof k->name - o,
@@ -142,7 +148,59 @@ choose_keys(int nkeys)
     char buf[16];
     size_t l;
     int b0;
-    if (MODE == 1) {
+    if (MODE == 2 && SUB) {
+        /* binary keys LONGER than any fixed-size scratch buffer a hashing shortcut might use: two 40-byte keys that agree in their first
+         * 33 bytes, one that differs in its first byte, the 33-byte common prefix, and a short key */
+        char a[40], b[40], c[40];
+        int i;
+        for (i = 0; i < 40; i++)
+            a[i] = b[i] = c[i] = (char)(i * 7 + 1);
+        b[36] ^= 0x55;
+        c[0] ^= 0x55;
+        NK = 0;
+        add_key(a, 40);
+        add_key(b, 40);
+        add_key(c, 40);
+        add_key(a, 33);
+        add_key("a", 1);
+        a[39] = 0;
+        add_key(a, 40);
+    } else if (MODE == 1 && SUB) {
+        /* non-letters that differ only in bit 5 ('@' '`', '[' '{', '^' '~') are DIFFERENT keys also in a case-insensitive table; each pair is
+         * searched for with a common prefix that puts both in ONE bucket (asked of the real table) */
+        /* the table's hash is additive, so two such keys share a bucket only if they differ in several places: all 256 variants of a template
+         * with eight such characters go into 101 buckets, two of them must collide (asked of the real table) */
+        static const char tmpl[] = "n@a[b\\c]d^e@f[g]";
+        static const int pos[8] = { 1, 3, 5, 7, 9, 11, 13, 15 };
+        int i, j, q, f = 0, bk[256];
+        char v[256][20];
+        NK = 0;
+        for (i = 0; i < 256; i++) {
+            memcpy(v[i], tmpl, sizeof tmpl);
+            for (q = 0; q < 8; q++)
+                if ((i >> q) & 1)
+                    v[i][pos[q]] = (char)(v[i][pos[q]] ^ 0x20);
+            bk[i] = bucket_of(v[i], sizeof tmpl - 1);
+        }
+        for (i = 0; i < 256 && f < 2; i++)
+            for (j = i + 1; j < 256 && f < 2; j++)
+                if (bk[i] == bk[j] && (f == 0 || bk[i] != bucket_of(K[0].bytes, K[0].len))) {
+                    add_key(v[i], sizeof tmpl - 1);
+                    add_key(v[j], sizeof tmpl - 1);
+                    f++;
+                    break;
+                }
+        if (f < 2) {
+            fprintf(stderr, "punctuation key search failed\n");
+            exit(2);
+        }
+        {
+            char u[20];
+            memcpy(u, K[0].bytes, K[0].len + 1);
+            u[0] = (char)(u[0] - 32); /* the first key in another letter case: the SAME key */
+            add_key(u, K[0].len);
+        }
+    } else if (MODE == 1) {
         /* a case-insensitive table must find a key under ANY spelling: the second key is simply the other spelling of the
          * first, wherever the table puts it */
         NK = 0;
@@ -309,7 +367,7 @@ typedef struct {
 } obj_t;
 
 enum { OP_ENTER1, OP_ENTER2, OP_REPL1, OP_REPL2, OP_DEL, OPS_PER_KEY };
-static char opnames[MAXK * OPS_PER_KEY + 1][48];
+static char opnames[MAXK * OPS_PER_KEY + 1][140];
 
 static const char *
 opname(void *ctx, int op)
@@ -539,7 +597,8 @@ main(int argc, char **argv)
 
     mc_init();
     mc_install_crash_hooks();
-    MODE = strcmp(mode, "nocase") == 0 ? 1 : strcmp(mode, "bin") == 0 ? 2 : 0;
+    MODE = strncmp(mode, "nocase", 6) == 0 ? 1 : strncmp(mode, "bin", 3) == 0 ? 2 : 0;
+    SUB = strcmp(mode, "binlong") == 0 || strcmp(mode, "nocasepunct") == 0;
     choose_keys(nkeys);
     for (k = 0; k < NK; k++) {
         static const char *kn[] = { "enter1", "enter2", "replace1", "replace2", "delete" };
@@ -573,7 +632,7 @@ main(int argc, char **argv)
         for (k = 0; k < NK; k++)
             if (cls[k] == k && bucket_of(K[k].bytes, K[k].len) == b0)
                 same++;
-        if (same < 3) {
+        if (same < (SUB ? (MODE == 1 ? 2 : 1) : 3)) {
             fprintf(stderr, "key alphabet does not collide: %s\n", desc);
             return 2;
         }
